@@ -67,4 +67,456 @@ theorem mass_flatMap {β : Type} (l : List β) (f : β → SubPMF α) (x : α) :
   | nil => simp [mass, total]
   | cons b l ih => simp [List.flatMap_cons, mass_append, ih]
 
+
+/-- a genuine sub-probability mass list -/
+def IsSubPMF (p : SubPMF α) : Prop := (∀ e ∈ p, 0 ≤ e.2) ∧ total p ≤ 1
+
+theorem total_nonneg {p : SubPMF α} (h : ∀ e ∈ p, 0 ≤ e.2) : 0 ≤ total p := by
+  induction p with
+  | nil => simp [total]
+  | cons e p ih =>
+    rw [total_cons]
+    have h1 := h e (by simp)
+    have h2 := ih (fun e' he' => h e' (by simp [he']))
+    linarith
+
+theorem total_filter_le {p : SubPMF α} (h : ∀ e ∈ p, 0 ≤ e.2) (f : α × Rat → Bool) :
+    total (p.filter f) ≤ total p := by
+  induction p with
+  | nil => simp [total]
+  | cons e p ih =>
+    have h1 := h e (by simp)
+    have h2 := ih (fun e' he' => h e' (by simp [he']))
+    by_cases hf : f e
+    · rw [List.filter_cons_of_pos hf, total_cons, total_cons]; linarith
+    · rw [List.filter_cons_of_neg hf, total_cons]; linarith
+
+theorem mass_nonneg {p : SubPMF α} (h : ∀ e ∈ p, 0 ≤ e.2) (x : α) : 0 ≤ mass p x := by
+  unfold mass
+  apply total_nonneg
+  intro e he
+  exact h e (List.mem_of_mem_filter he)
+
+theorem mass_le_total {p : SubPMF α} (h : ∀ e ∈ p, 0 ≤ e.2) (x : α) : mass p x ≤ total p :=
+  total_filter_le h _
+
+theorem interSampler_reference (ops : List (Operand α)) :
+    interSampler SamplerCfg.reference ops =
+      if (interSamplingRegions SamplerCfg.reference ops).all (·.sampler.isNone) then none
+      else some (interFirstFit (fun x => ops.all (·.contains x))
+        ((interSamplingRegions SamplerCfg.reference ops).map (·.sampler))) := by
+  simp [interSampler, SamplerCfg.reference]
+
+/-- first-fit loop: uniformity is inherited -/
+theorem interFirstFit_uniform (inAll : α → Bool) (ps : List (Option (SubPMF α)))
+    (h : ∀ p, some p ∈ ps → ∀ x y, inAll x = true → inAll y = true → mass p x = mass p y) :
+    (∀ x y, inAll x = true → inAll y = true →
+        mass (interFirstFit inAll ps) x = mass (interFirstFit inAll ps) y) ∧
+    (∀ x, inAll x = false → mass (interFirstFit inAll ps) x = 0) := by
+  induction ps with
+  | nil => simp [interFirstFit, mass_nil]
+  | cons o rest ih =>
+    have ih' := ih (fun p hp => h p (by simp [hp]))
+    cases o with
+    | none => simpa [interFirstFit] using ih'
+    | some p =>
+      have hp := h p (by simp)
+      constructor
+      · intro x y hx hy
+        simp only [interFirstFit, mass_append, mass_scale, mass_filter, hx, hy, if_true]
+        rw [hp x y hx hy, ih'.1 x y hx hy]
+      · intro x hx
+        simp only [interFirstFit, mass_append, mass_scale, mass_filter, hx]
+        rw [ih'.2 x hx]; simp
+
+theorem interFirstFit_valid (inAll : α → Bool) (ps : List (Option (SubPMF α)))
+    (h : ∀ p, some p ∈ ps → IsSubPMF p) : IsSubPMF (interFirstFit inAll ps) := by
+  induction ps with
+  | nil => simp [interFirstFit, IsSubPMF, total]
+  | cons o rest ih =>
+    have ih' := ih (fun p hp => h p (by simp [hp]))
+    cases o with
+    | none => simpa [interFirstFit] using ih'
+    | some p =>
+      have hp := h p (by simp)
+      have hT : total (p.filter fun e => inAll e.1) ≤ 1 := le_trans (total_filter_le hp.1 _) hp.2
+      have hT0 : 0 ≤ total (p.filter fun e => inAll e.1) :=
+        total_nonneg (fun e he => hp.1 e (List.mem_of_mem_filter he))
+      constructor
+      · intro e he
+        simp only [interFirstFit, List.mem_append] at he
+        rcases he with he | he
+        · exact hp.1 e (List.mem_of_mem_filter he)
+        · simp only [scale, List.mem_map] at he
+          obtain ⟨e', he', rfl⟩ := he
+          exact mul_nonneg (by linarith) (ih'.1 e' he')
+      · simp only [interFirstFit, total_append, total_scale]
+        have := ih'.2
+        have h0 := total_nonneg ih'.1
+        nlinarith
+
+/-- the first sampled operand's mass is a lower bound (full support) -/
+theorem interFirstFit_ge_first (inAll : α → Bool) (p : SubPMF α) (rest : List (Option (SubPMF α)))
+    (hp : IsSubPMF p) (hr : ∀ q, some q ∈ rest → IsSubPMF q) (x : α) (hx : inAll x = true) :
+    mass p x ≤ mass (interFirstFit inAll (some p :: rest)) x := by
+  simp only [interFirstFit, mass_append, mass_scale, mass_filter, hx, if_true]
+  have hv := interFirstFit_valid inAll rest hr
+  have hT : total (p.filter fun e => inAll e.1) ≤ 1 := le_trans (total_filter_le hp.1 _) hp.2
+  have := mass_nonneg hv.1 x
+  nlinarith [mul_nonneg (sub_nonneg.mpr hT) this]
+
+
+theorem mass_map_const (l : List α) (c : Rat) (x : α) :
+    mass (l.map fun y => (y, c)) x = c * (l.count x : Rat) := by
+  induction l with
+  | nil => simp [mass, total]
+  | cons a l ih =>
+    rw [List.map_cons, mass_cons, ih]
+    by_cases h : a = x
+    · subst h; simp; ring
+    · simp [h]
+
+theorem mass_uniformList (l : List α) (x : α) :
+    mass (uniformList l) x = (l.count x : Rat) / (l.length : Rat) := by
+  unfold uniformList; rw [mass_map_const]; ring
+
+theorem mass_uniformList_nodup (l : List α) (h : l.Nodup) (x : α) :
+    mass (uniformList l) x = if x ∈ l then 1 / (l.length : Rat) else 0 := by
+  rw [mass_uniformList]
+  by_cases hx : x ∈ l
+  · simp [hx, List.Nodup.count h]
+  · simp [hx, List.Nodup.count h]
+
+theorem mass_map_mul (p : SubPMF α) (g : α → Rat) (x : α) :
+    mass (p.map fun e => (e.1, e.2 * g e.1)) x = mass p x * g x := by
+  induction p with
+  | nil => simp [mass, total]
+  | cons e p ih =>
+    rw [List.map_cons, mass_cons, mass_cons, ih]
+    by_cases h : e.1 = x
+    · subst h; simp; ring
+    · simp [h]
+
+theorem foldl_max_const {β : Type} (d : Nat) (l : List β) : (l.map fun _ => d).foldl max d = d := by
+  induction l with
+  | nil => rfl
+  | cons a l ih => simpa using ih
+
+theorem sum_indicator {β : Type} (l : List β) (f : β → Bool) (k : Rat) :
+    (l.map fun b => if f b then k else 0).sum = k * ((l.filter f).length : Rat) := by
+  induction l with
+  | nil => simp
+  | cons b l ih =>
+    by_cases h : f b
+    · simp [h, ih]; ring
+    · simp [h, ih]
+
+theorem unionLarge_prim (d : Nat) (μ : Rat) (Rs : List (List α)) :
+    unionLarge SamplerCfg.reference (Rs.map (primOperand d μ)) = Rs.map (primOperand d μ) := by
+  unfold unionLarge
+  have hdims : (Rs.map (primOperand d μ)).filterMap (·.dim) = Rs.map fun _ => d := by
+    induction Rs with
+    | nil => rfl
+    | cons R Rs ih => simp [primOperand] at ih ⊢; exact ih
+  rw [hdims]
+  cases Rs with
+  | nil => rfl
+  | cons R Rs =>
+    simp only [List.map_cons, listMax, foldl_max_const]
+    apply List.filter_eq_self.mpr
+    intro o ho
+    have : o.dim = some d := by
+      rcases List.mem_cons.mp ho with h | h
+      · rw [h]; rfl
+      · obtain ⟨R', _, rfl⟩ := List.mem_map.mp h; rfl
+    simp [this, SamplerCfg.reference, CmpOp.eval]
+
+theorem unionSampler_prim (d : Nat) (μ : Rat) (Rs : List (List α)) :
+    unionSampler SamplerCfg.reference (Rs.map (primOperand d μ)) =
+      some (weightedPick (Rs.map (primOperand d μ)) opSize fun o =>
+        (o.sampler.getD []).map fun e =>
+          (e.1, e.2 * acceptProb .invCount (containCount (Rs.map (primOperand d μ)) e.1))) := by
+  unfold unionSampler
+  rw [unionLarge_prim]
+  have h1 : (Rs.map (primOperand d μ)).any (·.dim.isNone) = false := by
+    simp [List.any_eq_false, primOperand]
+  have h2 : (Rs.map (primOperand d μ)).any (·.size.isNone) = false := by
+    simp [List.any_eq_false, primOperand]
+  have h3 : (Rs.map (primOperand d μ)).any (·.sampler.isNone) = false := by
+    simp [List.any_eq_false, primOperand]
+  simp only [h1, h2, h3, SamplerCfg.reference]
+  simp
+
+theorem containCount_prim (d : Nat) (μ : Rat) (Rs : List (List α)) (x : α) :
+    containCount (Rs.map (primOperand d μ)) x = (Rs.filter fun R => decide (x ∈ R)).length := by
+  unfold containCount
+  induction Rs with
+  | nil => rfl
+  | cons R Rs ih =>
+    by_cases h : x ∈ R
+    · simp [primOperand, h] at ih ⊢; exact ih
+    · simp [primOperand, h] at ih ⊢; exact ih
+
+theorem mass_weightedPick {β : Type} (items : List β) (w : β → Rat) (f : β → SubPMF α) (x : α) :
+    mass (weightedPick items w f) x =
+      (items.map fun b => w b / (items.map w).sum * mass (f b) x).sum := by
+  unfold weightedPick
+  rw [mass_flatMap]
+  congr 1
+  apply List.map_congr_left
+  intro b _
+  rw [mass_scale]
+
+theorem sum_sizes_prim (d : Nat) (μ : Rat) (Rs : List (List α)) :
+    ((Rs.map (primOperand d μ)).map opSize).sum = μ * ((Rs.map List.length).sum : Nat) := by
+  induction Rs with
+  | nil => simp
+  | cons R Rs ih =>
+    simp only [List.map_cons, List.sum_cons, Nat.cast_add] at ih ⊢
+    rw [ih]; simp [opSize, primOperand]; ring
+
+/-- **union, all operands of the same dimension**: every atom of the union has mass `1 / Σ|Rᵢ|`,
+    whatever the overlaps and the number of operands; atoms outside have mass 0. -/
+theorem union_mass (d : Nat) (μ : Rat) (hμ : 0 < μ) (Rs : List (List α)) (hnd : ∀ R ∈ Rs, R.Nodup) (x : α) :
+    ∃ p, unionSampler SamplerCfg.reference (Rs.map (primOperand d μ)) = some p ∧
+      mass p x = if (∃ R ∈ Rs, x ∈ R) then 1 / (((Rs.map List.length).sum : Nat) : Rat) else 0 := by
+  refine ⟨_, unionSampler_prim d μ Rs, ?_⟩
+  rw [mass_weightedPick, sum_sizes_prim, List.map_map]
+  set N : Nat := (Rs.map List.length).sum with hN
+  set c : Nat := (Rs.filter fun R => decide (x ∈ R)).length with hc
+  have hterm : ∀ R ∈ Rs,
+      ((fun o : Operand α => opSize o / (μ * (N : Rat)) *
+        mass ((o.sampler.getD []).map fun e =>
+          (e.1, e.2 * acceptProb .invCount (containCount (Rs.map (primOperand d μ)) e.1))) x) ∘
+        primOperand d μ) R
+      = if decide (x ∈ R) then (1 / (N : Rat)) * acceptProb .invCount c else 0 := by
+    intro R hR
+    simp only [Function.comp]
+    rw [mass_map_mul _ (fun y => acceptProb .invCount (containCount (Rs.map (primOperand d μ)) y)) x,
+      containCount_prim, ← hc]
+    simp only [primOperand, Option.getD_some, opSize]
+    rw [mass_uniformList_nodup R (hnd R hR)]
+    by_cases hx : x ∈ R
+    · have hlen : (R.length : Rat) ≠ 0 := by
+        have : 0 < R.length := List.length_pos_of_mem hx
+        exact_mod_cast this.ne'
+      simp only [hx, if_true, decide_true]
+      field_simp
+    · simp [hx]
+  rw [List.map_congr_left hterm, sum_indicator]
+  by_cases hex : ∃ R ∈ Rs, x ∈ R
+  · simp only [hex, if_true]
+    have hcpos : 0 < c := by
+      obtain ⟨R, hR, hx⟩ := hex
+      rw [hc]; apply List.length_pos_of_mem (a := R)
+      simp [hR, hx]
+    have hc0 : (c : Rat) ≠ 0 := by exact_mod_cast hcpos.ne'
+    simp only [acceptProb, hcpos.ne', if_false]
+    rw [← hc]
+    field_simp
+  · simp only [hex, if_false]
+    have : c = 0 := by
+      rw [hc, List.length_eq_zero_iff, List.filter_eq_nil_iff]
+      intro R hR; simp; exact fun hx => hex ⟨R, hR, hx⟩
+    rw [← hc, this]; simp [acceptProb]
+
+
+
+theorem sum_map_mul_const {β : Type} (l : List β) (g : β → Rat) (k : Rat) :
+    (l.map fun a => g a * k).sum = (l.map g).sum * k := by
+  induction l with
+  | nil => simp
+  | cons a l ih => simp only [List.map_cons, List.sum_cons, ih]; ring
+
+/-- mass of `weightedPick` over uniform lists with weights proportional to their lengths:
+    (multiplicity of the atom over all lists) / (total number of atoms) -/
+theorem mass_weightedPick_uniform (μ : Rat) (hμ : μ ≠ 0) (segs : List (List α)) (x : α) :
+    mass (weightedPick segs (fun s => μ * (s.length : Rat)) uniformList) x =
+      ((segs.map fun s => (s.count x : Rat)).sum) / (((segs.map List.length).sum : Nat) : Rat) := by
+  rw [mass_weightedPick]
+  have hW : (segs.map fun s => μ * (s.length : Rat)).sum = μ * (((segs.map List.length).sum : Nat) : Rat) := by
+    induction segs with
+    | nil => simp
+    | cons s segs ih => simp only [List.map_cons, List.sum_cons, Nat.cast_add] at ih ⊢; rw [ih]; ring
+  rw [hW]
+  set N : Rat := (((segs.map List.length).sum : Nat) : Rat)
+  have hterm : ∀ s ∈ segs, μ * (s.length : Rat) / (μ * N) * mass (uniformList s) x = (s.count x : Rat) * (1 / N) := by
+    intro s _
+    rw [mass_uniformList]
+    by_cases hl : s.length = 0
+    · have : s = [] := List.length_eq_zero_iff.mp hl
+      subst this; simp
+    · have hl' : (s.length : Rat) ≠ 0 := by exact_mod_cast hl
+      by_cases hN : N = 0
+      · simp [hN]
+      · field_simp
+  rw [List.map_congr_left hterm, sum_map_mul_const]
+  ring
+
+/-- difference: the sample of `A` is kept exactly when `B` does not contain it -/
+theorem mass_diffSampler (a b : Operand α) (p : SubPMF α) (h : a.sampler = some p) (x : α) :
+    ∃ q, diffSampler SamplerCfg.reference a b = some q ∧
+      mass q x = if b.contains x then 0 else mass p x := by
+  refine ⟨p.filter fun e => !b.contains e.1, ?_, ?_⟩
+  · simp [diffSampler, h, SamplerCfg.reference]
+  · rw [mass_filter (fun y => !b.contains y)]
+    cases b.contains x <;> simp
+
+theorem mass_ballSampler (points : List α) (inBall contains : α → Bool) (x : α) :
+    mass (ballSampler points inBall contains) x =
+      mass (uniformList (points.filter fun p => inBall p && contains p)) x := by
+  simp [ballSampler, List.filter_filter, Bool.and_comm]
+
+/-- geometric factor of the truncated rejection loop -/
+def geom (q : Rat) : Nat → Rat
+  | 0 => 0
+  | n + 1 => 1 + (1 - q) * geom q n
+
+theorem geom_closed (q : Rat) (n : Nat) : q * geom q n = 1 - (1 - q) ^ n := by
+  induction n with
+  | zero => simp [geom]
+  | succ n ih =>
+    simp only [geom, pow_succ]
+    have h2 : q * (1 + (1 - q) * geom q n) = q + (1 - q) * (q * geom q n) := by ring
+    rw [h2, ih]; ring
+
+theorem total_uniformList_filter (box : List α) (f : α → Bool) :
+    total ((uniformList box).filter fun e => f e.1) = ((box.filter f).length : Rat) / (box.length : Rat) := by
+  unfold uniformList
+  have : ∀ (c : Rat) (l : List α), total ((l.map fun x => (x, c)).filter fun e => f e.1) = c * ((l.filter f).length : Rat) := by
+    intro c l
+    induction l with
+    | nil => simp [total]
+    | cons a l ih =>
+      by_cases h : f a
+      · simp only [List.map_cons, h, List.filter_cons_of_pos, total_cons, ih, List.length_cons, Nat.cast_add, Nat.cast_one]; ring
+      · simp [h, ih]
+  rw [this]; ring
+
+
+/-- one more round of the rejection loop -/
+theorem mass_rejectionLoop (box : List α) (inTri : α → Bool) (n : Nat) (x : α) :
+    mass (rejectionLoop box inTri n) x =
+      geom (((box.filter inTri).length : Rat) / (box.length : Rat)) n *
+        (if inTri x then mass (uniformList box) x else 0) := by
+  induction n with
+  | zero => simp [rejectionLoop, geom, mass_nil]
+  | succ n ih =>
+    simp only [rejectionLoop, mass_append, mass_scale, total_uniformList_filter, ih, geom]
+    rw [mass_filter inTri]
+    ring
+
+
+theorem foldl_max_le (d : Nat) (l : List Nat) (h : ∀ e ∈ l, e ≤ d) : l.foldl max d = d := by
+  induction l with
+  | nil => rfl
+  | cons a l ih =>
+    have ha : a ≤ d := h a (by simp)
+    simp only [List.foldl_cons, Nat.max_eq_left ha]
+    exact ih (fun e he => h e (by simp [he]))
+
+/-- core of the union computation: only the containment count at `x` matters -/
+theorem union_mass_core (d : Nat) (μ : Rat) (hμ : 0 < μ) (Rs : List (List α)) (hnd : ∀ R ∈ Rs, R.Nodup)
+    (ops : List (Operand α)) (x : α)
+    (hcount : containCount ops x = (Rs.filter fun R => decide (x ∈ R)).length) :
+    mass (weightedPick (Rs.map (primOperand d μ)) opSize fun o =>
+      (o.sampler.getD []).map fun e => (e.1, e.2 * acceptProb .invCount (containCount ops e.1))) x
+      = if (∃ R ∈ Rs, x ∈ R) then 1 / (((Rs.map List.length).sum : Nat) : Rat) else 0 := by
+  rw [mass_weightedPick, sum_sizes_prim, List.map_map]
+  set N : Nat := (Rs.map List.length).sum with hN
+  set c : Nat := (Rs.filter fun R => decide (x ∈ R)).length with hc
+  have hterm : ∀ R ∈ Rs,
+      ((fun o : Operand α => opSize o / (μ * (N : Rat)) *
+        mass ((o.sampler.getD []).map fun e =>
+          (e.1, e.2 * acceptProb .invCount (containCount ops e.1))) x) ∘
+        primOperand d μ) R
+      = if decide (x ∈ R) then (1 / (N : Rat)) * acceptProb .invCount c else 0 := by
+    intro R hR
+    simp only [Function.comp]
+    rw [mass_map_mul _ (fun y => acceptProb .invCount (containCount ops y)) x, hcount]
+    simp only [primOperand, Option.getD_some, opSize]
+    rw [mass_uniformList_nodup R (hnd R hR)]
+    by_cases hx : x ∈ R
+    · have hlen : (R.length : Rat) ≠ 0 := by
+        have : 0 < R.length := List.length_pos_of_mem hx
+        exact_mod_cast this.ne'
+      simp only [hx, if_true, decide_true]
+      field_simp
+    · simp [hx]
+  rw [List.map_congr_left hterm, sum_indicator]
+  by_cases hex : ∃ R ∈ Rs, x ∈ R
+  · simp only [hex, if_true]
+    have hcpos : 0 < c := by
+      obtain ⟨R, hR, hx⟩ := hex
+      rw [hc]; apply List.length_pos_of_mem (a := R)
+      simp [hR, hx]
+    have hc0 : (c : Rat) ≠ 0 := by exact_mod_cast hcpos.ne'
+    simp only [acceptProb, hcpos.ne', if_false]
+    rw [← hc]
+    field_simp
+  · simp only [hex, if_false]
+    have : c = 0 := by
+      rw [hc, List.length_eq_zero_iff, List.filter_eq_nil_iff]
+      intro R hR; simp; exact fun hx => hex ⟨R, hR, hx⟩
+    rw [← hc, this]; simp [acceptProb]
+
+/-- lower-dimensional operands are not sampled (they only enter the containment count) -/
+theorem unionSampler_mixed (d : Nat) (μ : Rat) (R : List α) (Rs : List (List α)) (smalls : List (Operand α))
+    (hsm : ∀ o ∈ smalls, ∃ e, o.dim = some e ∧ e < d) :
+    unionSampler SamplerCfg.reference ((R :: Rs).map (primOperand d μ) ++ smalls) =
+      some (weightedPick ((R :: Rs).map (primOperand d μ)) opSize fun o =>
+        (o.sampler.getD []).map fun e =>
+          (e.1, e.2 * acceptProb .invCount (containCount ((R :: Rs).map (primOperand d μ) ++ smalls) e.1))) := by
+  have hlarge : unionLarge SamplerCfg.reference ((R :: Rs).map (primOperand d μ) ++ smalls)
+      = (R :: Rs).map (primOperand d μ) := by
+    unfold unionLarge
+    have hdims : ((R :: Rs).map (primOperand d μ) ++ smalls).filterMap (·.dim)
+        = d :: ((Rs.map fun _ => d) ++ smalls.filterMap (·.dim)) := by
+      rw [List.filterMap_append]
+      have : ((R :: Rs).map (primOperand d μ)).filterMap (·.dim) = d :: Rs.map fun _ => d := by
+        simp only [List.map_cons, List.filterMap_cons, primOperand]
+        congr 1
+        induction Rs with
+        | nil => rfl
+        | cons S L ih => simp [primOperand] at ih ⊢; exact ih
+      rw [this]; rfl
+    rw [hdims]
+    have hmax : listMax (d :: ((Rs.map fun _ => d) ++ smalls.filterMap (·.dim))) = some d := by
+      simp only [listMax]
+      congr 1
+      apply foldl_max_le
+      intro e he
+      rcases List.mem_append.mp he with h | h
+      · obtain ⟨_, _, rfl⟩ := List.mem_map.mp h; exact Nat.le_refl _
+      · obtain ⟨o, ho, hoe⟩ := List.mem_filterMap.mp h
+        obtain ⟨e', he', hlt⟩ := hsm o ho
+        rw [he'] at hoe; cases hoe; exact Nat.le_of_lt hlt
+    rw [hmax]
+    show List.filter _ _ = _
+    rw [List.filter_append]
+    rw [List.filter_eq_self.mpr, List.filter_eq_nil_iff.mpr, List.append_nil]
+    · intro o ho
+      obtain ⟨e, he, hlt⟩ := hsm o ho
+      simp [he, SamplerCfg.reference, CmpOp.eval]; omega
+    · intro o ho
+      obtain ⟨S, _, rfl⟩ := List.mem_map.mp ho
+      simp [primOperand, SamplerCfg.reference, CmpOp.eval]
+  unfold unionSampler
+  rw [hlarge]
+  have h1 : ((R :: Rs).map (primOperand d μ) ++ smalls).any (·.dim.isNone) = false := by
+    rw [List.any_append]
+    have : smalls.any (·.dim.isNone) = false := by
+      apply List.any_eq_false.mpr
+      intro o ho
+      obtain ⟨e, he, _⟩ := hsm o ho
+      simp [he]
+    simp [List.any_eq_false, primOperand, this]
+  have h2 : ((R :: Rs).map (primOperand d μ)).any (·.size.isNone) = false := by
+    simp [List.any_eq_false, primOperand]
+  have h3 : ((R :: Rs).map (primOperand d μ)).any (·.sampler.isNone) = false := by
+    simp [List.any_eq_false, primOperand]
+  simp only [h1, h2, h3, SamplerCfg.reference]
+  simp
+
+
 end Scenic.RegionSampling
